@@ -459,6 +459,35 @@ def eq_test_taken(elem_field, key):
     return pred
 
 
+@cached
+def connect_write(f):
+    """the handshake's write of CONNECT: dict(calls=[io calls that put CONNECT on the wire], conts=[success edges],
+    buffer=term of the buffer CONNECT is encoded into, span).  Either one call of an encode-and-write helper instantiated
+    for packets::Connect, or -- when that helper is folded into the handshake -- MqttSerializer::encode::<Connect> followed
+    by the writes of its result."""
+    from .ops import cont_edges
+    call, hb, hcode = handshake(f)
+    ios = [c for c in hcode.calls.values() if c.bb in hcode.reachable and f.call_does_io(c)]
+    conn = [c for c in ios if any("Connect" in g and "packets::" in g for g in c.gargs)]
+    if len(conn) == 1:
+        c = conn[0]
+        conts, _ = cont_edges(hcode, c)
+        return {"calls": [c], "conts": conts, "buffer": hcode.operand_term(c.args[0]), "span": c.span, "ios": ios, "count": 1}
+    encs = [c for c in hcode.calls.values() if c.bb in hcode.reachable and c.path and "MqttSerializer" in c.path and "encode" in c.path
+            and any("Connect" in g and "packets::" in g for g in c.gargs)]
+    if len(encs) == 1:
+        e = encs[0]
+        writes = [c for c in ios if any(x[0] == "call" and x[1] == e.bb for a in c.args for x in walk(hcode.operand_term(a)))]
+        conts = []
+        for w in writes:
+            ce, _ = cont_edges(hcode, w)
+            conts += ce
+        flushes = [c for c in ios if c.path == IO_FLUSH and writes and hcode.must_pass([0], [c.bb], via_edges=conts)[0]]
+        return {"calls": writes + flushes, "conts": conts, "buffer": hcode.operand_term(e.args[0]), "span": e.span, "ios": ios,
+                "count": 1 if writes else 0}
+    return {"calls": [], "conts": [], "buffer": None, "span": hb.span, "ios": ios, "count": len(conn) + len(encs)}
+
+
 OK_KEEPING = ("Result::<T, E>::map_err", "Result::<T, E>::inspect", "Result::<T, E>::inspect_err")
 
 
@@ -546,6 +575,85 @@ def depends_on_local(code, rv, target, limit=400):
     return False
 
 
+def _raw_places(o, out):
+    """(local, first field name or None) of every place mentioned in a raw rvalue / operand list"""
+    if isinstance(o, dict):
+        if "l" in o and "proj" in o:
+            fn = None
+            for e in o["proj"]:
+                if e == "deref":
+                    continue
+                if isinstance(e, dict) and "f" in e:
+                    fn = e.get("name")
+                break
+            out.add((o["l"], fn))
+            for e in o["proj"]:
+                if isinstance(e, dict) and "index" in e:
+                    out.add((e["index"], None))
+            return
+        for v in o.values():
+            _raw_places(v, out)
+    elif isinstance(o, list):
+        for v in o:
+            _raw_places(v, out)
+
+
+def depends_on_place(code, rv, target, tfield, limit=800):
+    """field-sensitive variant of depends_on_local: rv is computed from `target.tfield` (or from all of `target`)"""
+    work = set()
+    _raw_places(rv, work)
+    work = list(work)
+    seen = set()
+    defs = code.defs()
+    n = 0
+    while work and n < limit:
+        n += 1
+        l, fn = work.pop()
+        if l == target and (fn is None or tfield is None or fn == tfield):
+            return True
+        if (l, fn) in seen:
+            continue
+        seen.add((l, fn))
+        # whole-local definitions
+        for d in defs.get(l, []):
+            nxt = set()
+            if d[0] == "stmt":
+                rv2 = code.blocks[d[1]]["stmts"][d[2]]["rv"]
+                if fn is not None and "agg" in rv2 and rv2["agg"]["kind"] == "adt" and fn in (rv2["agg"].get("fields") or []):
+                    _raw_places(rv2["ops"][rv2["agg"]["fields"].index(fn)], nxt)   # only the operand of that field
+                else:
+                    _raw_places(rv2, nxt)
+            elif d[0] == "call":
+                _raw_places(code.blocks[d[1]]["term"]["args"], nxt)
+            work.extend(nxt)
+        # partial stores `l.f = ..`
+        for (bb, j, dst, rv2, s_) in code.stores():
+            if dst["l"] != l or bb not in code.reachable:
+                continue
+            first = [e for e in dst["proj"] if e != "deref"][:1]
+            sf = first[0].get("name") if first and isinstance(first[0], dict) and "f" in first[0] else None
+            if fn is None or sf is None or sf == fn:
+                nxt = set()
+                _raw_places(rv2, nxt)
+                work.extend(nxt)
+    return False
+
+
+def local_feeds(f, hcode, l, fname):
+    """(adt, field) of state that hcode stores a value computed from local l (its field fname) into"""
+    fs = set()
+    for (bb, j, dst, rv, s) in hcode.stores():
+        if bb not in hcode.reachable or dst["l"] == l:
+            continue
+        last = None
+        for e in dst["proj"]:
+            if isinstance(e, dict) and "f" in e and e.get("name"):
+                last = (e.get("of"), e["name"])
+        if last and depends_on_place(hcode, rv, l, fname):
+            fs.add(last)
+    return fs
+
+
 def upvar_feeds(f, hcode, cb):
     """for a closure `cb` built in `hcode`: captured-by-&mut variable name -> set of (adt, field) that hcode stores a value
     computed from that variable into"""
@@ -592,10 +700,10 @@ def connack_property_arms(f):
     from ..core import chain as _chain
     call, hb, hcode = handshake(f)
     out = {}
-    for cb in f.children(hcode):
-        if cb.kind != "closure":
-            continue
+    for cb in [hcode] + [c for c in f.children(hcode) if c.kind == "closure"]:
         for bb in sorted(cb.switches):
+            if bb not in cb.reachable:
+                continue
             si = cb.switch_info(bb)
             if si["enum"] != "properties::Property":
                 continue
@@ -604,12 +712,34 @@ def connack_property_arms(f):
                 arm = cb.reach([tgt], avoid=[bb]) - cb.reach([o for o in others if o != tgt], avoid=[bb])
                 stores = []
                 sblocks = []
-                for (sb, j, dst, rv, s) in cb.stores():
-                    if sb in arm:
-                        t = cb.place_term(dst)
-                        if t[0] == "deref" and t[1][0] == "param":
-                            stores.append((t[1][1].replace("_ref__", ""), cb.rvalue_term(rv)))
-                            sblocks.append(sb)
+                feeds = {}
+                if cb.kind == "closure":
+                    for (sb, j, dst, rv, s) in cb.stores():
+                        if sb in arm:
+                            t = cb.place_term(dst)
+                            if t[0] == "deref" and t[1][0] == "param":
+                                stores.append((t[1][1].replace("_ref__", ""), cb.rvalue_term(rv)))
+                                sblocks.append(sb)
+                else:
+                    # the loop lives in the handshake itself (or in a helper that was inlined): the values are kept in
+                    # locals, or in fields of a local struct, until they are applied to the session
+                    for sb, j, s in cb.assigns():
+                        if sb not in arm:
+                            continue
+                        dst = s["dst"]
+                        firstp = [e for e in dst["proj"] if e != "deref"][:1]
+                        fn = firstp[0].get("name") if firstp and isinstance(firstp[0], dict) and "f" in firstp[0] else None
+                        if dst["proj"] and fn is None:
+                            continue
+                        if any(isinstance(e, dict) and e.get("of") in STATE_ADTS for e in dst["proj"]):
+                            continue
+                        fd = local_feeds(f, cb, dst["l"], fn)
+                        if not fd:
+                            continue
+                        nm = "local%d%s" % (dst["l"], ("." + fn) if fn else "")
+                        stores.append((nm, cb.rvalue_term(s["rv"])))
+                        sblocks.append(sb)
+                        feeds[nm] = fd
                 # paths from the arm entry back to the loop head (the switch) or to a normal Ok return must pass the stores
                 unconditional = bool(sblocks)
                 if sblocks:
@@ -631,6 +761,8 @@ def connack_property_arms(f):
                                     val = cb.call_term(pb)
                             if val is not None and val[0] == "agg" and val[3] == "Ok":
                                 unconditional = False
-                out[v] = {"stores": stores, "unconditional": unconditional, "span": cb.line(tgt), "body": cb,
-                          "feeds": upvar_feeds(f, hcode, cb)}
+                if cb.kind == "closure":
+                    feeds = upvar_feeds(f, hcode, cb)
+                if v not in out or stores:
+                    out[v] = {"stores": stores, "unconditional": unconditional, "span": cb.line(tgt), "body": cb, "feeds": feeds}
     return out
